@@ -9,7 +9,9 @@ def run(R):
     import dreye
     nsys = 40 if R.tier == "quick" else 500
     R.rule = ("systems with 2-4 receptors (dichromats included), finite ub, K none/scalar/vector, baseline 0/scalar/vector; "
-              "non-negative target sets mixing chromaticities inside and outside the chromatic gamut, all-zero rows (with targets "
+              "non-negative target sets mixing chromaticities inside and outside the chromatic gamut, rows below the (non-zero) baseline "
+              "capture added to a set and whole dim sets whose negative light-induced parts exceed the largest positive one (mixed-sign "
+              "light-induced parts under relative=True), all-zero rows (with targets "
               "outside the gamut and with all other targets already inside), single-target sets, whole-number target sets handed "
               "in with an integer dtype, Fortran-ordered / strided target arrays, default and explicit (non-uniform) neutral "
               "points inside the gamut, relative and absolute capture. Call histories: every call on a fresh estimator, or all "
@@ -29,7 +31,10 @@ def run(R):
         nf = int(rng.integers(2, 5)); ns = int(rng.integers(nf, nf + 4))
         A = gen_A(rng, nf, ns, lo=0.0, hi=1.0, bits=3)
         kk, K = gen_K(rng, nf, kinds=("none", "scalar", "vector"))
-        bk, base = gen_baseline(rng, nf, kinds=("zero", "zero", "scalar", "vector"))
+        # target sets with rows BELOW the baseline (dark) capture need a registered non-zero baseline
+        mrng = R.rng(9, si)
+        below = str(mrng.choice(["none", "none", "none", "dim_set", "added_rows"]))
+        bk, base = gen_baseline(rng, nf, kinds=(("zero", "zero", "scalar", "vector") if below == "none" else ("scalar", "vector")))
         ub = dyadic(rng, 0.5, 4, 2, size=ns); lb = np.zeros(ns)
         relative = bool(rng.integers(4) > 0)
         sysd = {True: apply_K(A, K, base), False: (A.copy(), np.zeros(nf))}    # the (A', base') a call with this flag works with
@@ -53,8 +58,23 @@ def run(R):
                 Bt = np.insert(Bt, int(rng.integers(len(Bt) + 1)), 0.0, axis=0)
         if mode == "single":
             Bt = Bt[[int(rng.integers(len(Bt)))]]
+        # non-negative targets below the (transformed) baseline capture K*baseline: their light-induced part under relative=True
+        # is negative. "added_rows": one or two such rows join the set (the brightest light-induced part stays the largest in
+        # magnitude); "dim_set": the whole set is dim -- captures of 2^-4 .. 2^-10 of the in-gamut intensities on top of the
+        # baseline, plus rows at 0 .. 1/2 of the baseline --, so that the negative light-induced parts can exceed the largest
+        # positive one in magnitude. The common factor is defined by the largest (signed) light-induced part in both cases.
+        if below != "none":
+            At, bt = sysd[True]
+            nb = int(mrng.integers(1, 3))
+            frac = dyadic(mrng, 0, 0.5, 3, size=((nb, 1) if mrng.integers(2) else (nb, nf)))
+            rows_below = bt * frac
+            if below == "dim_set":
+                Bt = bt + (X[: int(mrng.integers(1, 4))] @ At.T) * 2.0 ** -int(mrng.integers(4, 11))
+            Bt = np.vstack([Bt, rows_below])
+            Bt = Bt[mrng.permutation(len(Bt))]
+            mode = ("dim+below_baseline" if below == "dim_set" else mode + "+below_baseline")
         # whole-number target sets may be handed in with an integer dtype (values only go to the model)
-        whole = bool(rng.integers(5) == 0)
+        whole = bool(rng.integers(5) == 0) and below != "dim_set"
         if whole:
             Bt = np.round(Bt * 4.0)
             if not np.any(Bt > 0):
@@ -76,7 +96,7 @@ def run(R):
         # ---- call history: fresh estimator per call, or every call of this system on one estimator
         hrng = R.rng(7, si)
         history = str(hrng.choice(["fresh", "shared", "shared"]))
-        flags = [bool(hrng.integers(2)) for _ in range(int(hrng.integers(0, 3)))] + [relative]
+        flags = [bool(hrng.integers(2)) for _ in range(int(hrng.integers(0, 3)))] + [relative] + ([True] if (below != "none" and not relative) else [])
         # a flag is usable for this target set when the largest light-induced part is positive (one common POSITIVE factor exists)
         flags = [r for r in flags if float(np.max(Bt - sysd[r][1])) > 0]
         order = ["l1:%d" % i for i in range(len(flags))] + ["dist"]
@@ -87,6 +107,9 @@ def run(R):
         for key in ("K_kind", "baseline_kind", "mode", "neutral_kind", "history"):
             R.count("%s:%s" % (key, c[key]))
         R.count("nf:%d" % nf); R.count("relative:%s" % relative); R.count("whole_int_targets:%s" % whole)
+        for r in sorted(set(flags)):
+            li_ = Bt - sysd[r][1]
+            R.count("l1-light-induced(relative=%s):%s" % (r, "all>=0" if np.min(li_) >= 0 else ("mixed-sign,largest-positive" if np.max(li_) >= -np.min(li_) else "mixed-sign,largest-negative")))
         R.count("rows:%d" % len(Bt)); R.count("calls_on_one_estimator:%d" % (len(order) if history == "shared" else 1))
         shared = est() if history == "shared" else None
         l1res = {}
